@@ -58,6 +58,8 @@ def step (line : String) : String :=
         | none => false
       if S2S.Translate.walk g { tb with skipAttr := [] } p.steps false && leafOK then "found" else "missed"
     | none => "bad-op"
+  | "valns" :: _ => Drv.TranslateVal.step line   -- value-level ops (Driver/TranslateVal.lean)
+  | "valsa" :: _ => Drv.TranslateVal.step line
   | _ => "bad-op"
 
 end Drv.NameMap
